@@ -26,6 +26,9 @@ import traceback
 PLUGINS = os.path.join(os.path.dirname(os.path.abspath(__file__)), "plugins", "engines.py")
 
 
+_RUN_NO = 0
+
+
 class StopRun(Exception):
     """Raised by the schedule to stop the main process between two completions."""
 
@@ -215,6 +218,14 @@ def run_sim(wd, inp="infretis.toml", schedule=None, stop_after=None, recorder=No
 
     old = os.getcwd()
     os.chdir(wd)
+    # every run of the program is a new process: emulate a different pid per call (engine file
+    # names contain os.getpid(), so a step redone after a restart writes files with new names)
+    global _RUN_NO
+    _RUN_NO += 1
+    real_getpid = os.getpid
+    base_pid = real_getpid()
+    run_no = _RUN_NO
+    os.getpid = lambda: base_pid + 100000 * run_no
     try:
         reset_class_state()
         if steps is not None:
@@ -255,6 +266,7 @@ def run_sim(wd, inp="infretis.toml", schedule=None, stop_after=None, recorder=No
                 "in_flight": [f.ordinal for f in futs.pending],
                 "cstep": st.cstep if st is not None else None, "state": st}
     finally:
+        os.getpid = real_getpid
         os.chdir(old)
 
 
